@@ -5,6 +5,7 @@ from . import accept
 def run(ctx):
     accept.rule_lists_are_disjunctions(ctx)
     accept.rule_delegation_pairs(ctx)
+    accept.rule_list_quantifiers(ctx)
     ctx.assume("modelled std functions of sa/tags.py (iterator adaptors, Vec push/append, vec!, iter::once/chain); everything else is reported as `cannot analyse`")
     ctx.assume("SAT semantics: a clause is a disjunction, assumptions are a conjunction")
     return (
